@@ -124,6 +124,8 @@ def gen_plan(prop, run_seed, tier):
         b[0], b[1] = (b[0] if keep_sample else a[0]), [list(a[1][1]), list(a[1][0])]
     pipe.ensure_noncontrol(spec)
     scorer = w.choice(["size", "random", "dbal", "scripted", "scripted", "scripted"])
+    if w.random() < 0.25:
+        gen.add_space_extra(w, spec)
     return dict(engine="scoresim", prop=prop, screen=spec, scorer=scorer, n_thetas=w.randint(3, 5), D=w.randint(1, 2),
                 seed=w.randrange(2**31), n_chunks=s.choice([1, 1, 2, 3, 4, n_plates, n_plates + 1, n_plates + 4, 16]),
                 batch_mode=s.choice(["none", "none", "unobserved", "unobserved", "observed", "mixed", "all"]),
